@@ -108,6 +108,30 @@ func addMoreIntrinsics(m map[string]intrinsic) {
 		m[p+".Marshal"] = asn1Marshal
 		m[p+".MarshalWithParams"] = asn1Marshal
 	}
+	// signature verification: an uninterpreted function of the algorithm, the signed bytes and the
+	// signature bytes (the hash and public-key code is not executed).  Flattening the arguments reads the
+	// signature bytes, which is what the C09 taint looks for.
+	m["github.com/zmap/zcrypto/x509.CheckSignatureFromKey"] = func(e *Exec, fn *ssa.Function, args []Value) Value {
+		e.stub("uf:x509.CheckSignatureFromKey")
+		return e.ufCall("x509.CheckSignatureFromKey", args[1:], fn.Signature.Results())
+	}
+	// (pkix.Name).String on a name of the linted object: its text is a function of the name alone, so it is
+	// modelled by one named input string per name (c.Issuer!String()) instead of executing the RDN formatter
+	// (sorting, escaping, OID tables) symbolically.  Over-approximation: the text is not tied to the attributes.
+	m["(github.com/zmap/zcrypto/x509/pkix.Name).String"] = func(e *Exec, fn *ssa.Function, args []Value) Value {
+		origin := ""
+		switch x := args[0].(type) {
+		case *LazyV:
+			origin = x.Name
+		case *StructV:
+			origin = x.Origin
+		}
+		if origin == "" {
+			return e.runBody(fn, args)
+		}
+		e.stub("model:pkix.Name.String(one named string per input name)")
+		return e.newSymString(quoteSym(origin + "!String()"))
+	}
 	m["(github.com/zmap/zcrypto/encoding/asn1.ObjectIdentifier).String"] = oidString
 	m["(encoding/asn1.ObjectIdentifier).String"] = oidString
 	// --- encoding/json on strings (C13/C14); everything else about the codec is trusted, not executed ---
